@@ -1,16 +1,16 @@
 //@unit C10_lists
 //@props C10 C04
 //@safetyprops C14
-//@desc List and graph maintenance the sweep's termination and memory safety rest on. SetOwner - BOUNDED (any acyclic owner graph over 4 OutRecs, any pair outrec/new_owner, points present or not): afterwards outrec's owner is new_owner, only those two are re-linked, and the owner graph is still ACYCLIC (every `while (x->owner)` walk - GetRealOutRec, RecursiveCheckOwners, IsValidOwner - ends). DeleteFromAEL - list of 1..3 edges: an edge that is in the list is unlinked (both directions, head updated) and freed exactly once; an edge that is not (already deleted) is left alone.
+//@desc List and graph maintenance the sweep's termination and memory safety rest on. SetOwner - BOUNDED (any acyclic owner graph over 4 OutRecs, any pair outrec/new_owner, points present or not): afterwards outrec's owner is new_owner, only those two are re-linked, and the owner graph is still ACYCLIC (every `while (x->owner)` walk - GetRealOutRec, RecursiveCheckOwners, IsValidOwner - ends). DeleteFromAEL - list of 1..3 edges: an edge that is in the list is unlinked (both directions, head updated) and freed exactly once; an edge that is not (already deleted) is left alone. SwapPositionsInAEL - list of 2..4 edges, any adjacent pair: exactly those two change places, every link stays consistent in both directions, the head is updated.
 #include "vf.h"
 //@include engine_types.inc
 unsigned nondet_uint(void); bool nondet_bool(void);
 #define NO 4
 OutRec g_or[NO]; OutPt g_somepts;
 /* ---------- SetOwner: the owner graph stays acyclic (the while (outrec->owner) walks of RecursiveCheckOwners / GetRealOutRec terminate) ---------- */
-//@extract file=CPP/Clipper2Lib/src/clipper.engine.cpp func=SetOwner ifndef=AEL
+//@extract file=CPP/Clipper2Lib/src/clipper.engine.cpp func=SetOwner ifdef=OWNER
 //@end
-#ifndef AEL
+#ifdef OWNER
 static int chain_len(OutRec* o) { int n = 0; for (int k = 0; k <= NO; ++k) { if (!o) return n; o = o->owner; n++; } return -1; /* longer than NO: a cycle */ }
 void h_SetOwner(void)
 {
@@ -56,5 +56,31 @@ void h_Del(void)
   VF_CANARY();
 }
 #endif
-//@run name=SetOwner.bounded entry=h_SetOwner unwind=7 flags=SAFETY solver=cadical timeout=300 bounded="owner graph over 4 OutRecs (any acyclic graph, any pair outrec/new_owner)"
+/* ---------- SwapPositionsInAEL: two adjacent edges change places ---------- */
+#ifdef SWAP
+Active g_a4[4];
+//@extract file=CPP/Clipper2Lib/src/clipper.engine.cpp func=ClipperBase::SwapPositionsInAEL self=ClipperBase byptr=e1,e2 ifdef=SWAP
+//@sub /&\(\*e1\)/e1/ min=0
+//@sub /&\(\*e2\)/e2/ min=0
+//@end
+void h_Swap(void)
+{
+  ClipperBase cb; unsigned n = nondet_uint(); __CPROVER_assume(n >= 2 && n <= 4);
+  for (unsigned i = 0; i < 4; ++i) { g_a4[i].prev_in_ael = (i > 0 && i < n) ? &g_a4[i - 1] : NULL; g_a4[i].next_in_ael = (i + 1 < n) ? &g_a4[i + 1] : NULL; }
+  cb.actives_ = &g_a4[0];
+  unsigned k = nondet_uint(); __CPROVER_assume(k < n - 1);       /* precondition: e1 is immediately to the left of e2 */
+  SwapPositionsInAEL(&cb, &g_a4[k], &g_a4[k + 1]);
+  /* the list is the old list with positions k and k+1 exchanged, linked both ways, head updated */
+  Active* p = cb.actives_; Active* prev = NULL;
+  for (unsigned i = 0; i < 4; ++i) if (i < n) {
+    unsigned want = (i == k) ? k + 1 : (i == k + 1) ? k : i;
+    __CPROVER_assert(p == &g_a4[want] && p->prev_in_ael == prev, "edges k and k+1 have changed places, everything else keeps its place, links consistent both ways");
+    prev = p; p = p->next_in_ael;
+  }
+  __CPROVER_assert(p == NULL, "and the list ends there");
+  VF_CANARY();
+}
+#endif
+//@run name=SetOwner.bounded entry=h_SetOwner defs=OWNER unwind=7 flags=SAFETY solver=cadical timeout=300 bounded="owner graph over 4 OutRecs (any acyclic graph, any pair outrec/new_owner)"
 //@run name=DeleteFromAEL entry=h_Del defs=AEL unwind=5 flags=SAFETY solver=cadical timeout=120 bounded="active edge list of 1..3 edges (the function is loop-free; the bound is on the list the harness builds)"
+//@run name=SwapPositionsInAEL entry=h_Swap defs=SWAP unwind=6 flags=SAFETY solver=cadical timeout=120 bounded="active edge list of 2..4 edges, any adjacent pair (the function is loop-free)"
